@@ -38,6 +38,7 @@ type op struct {
 }
 
 type slot struct {
+	mv       *manV // manifest variant of the deployed generation
 	kv       *chainx.KV
 	hash     util.Uint160
 	deployed bool
@@ -71,6 +72,7 @@ func newWorld(r *prng.R, tb *chainx.TB, net *chainx.Net, a *chainx.Node) *world 
 	}
 	w.toks[w.val.ScriptHash()] = "val"
 	w.toks[nativehashes.Treasury] = "treasury"
+	w.toks[nativehashes.ContractManagement] = "mgmt"
 	for i := range w.slots {
 		w.slots[i] = &slot{}
 	}
@@ -427,20 +429,29 @@ func (w *world) opRecoverFund(acc util.Uint160) *op {
 }
 
 func (w *world) opDeploy(si int) *op {
+	return w.opDeployV(si, w.randManV(si))
+}
+
+// opDeployV deploys a fresh generation of slot si with the given manifest variant.
+func (w *world) opDeployV(si int, mv *manV) *op {
 	s := w.slots[si]
 	owner := w.payer()
 	if owner < 0 {
 		return nil
 	}
 	w.seq++
-	kv := chainx.NewKV(fmt.Sprintf("kv%d-%d", si, w.seq), byte(w.r.Intn(250)))
-	h := kv.Hash(w.net.Account(owner))
-	tx := w.mkTx(kv.DeployScript([]byte{byte(w.seq)}), 0, w.net.Single(owner))
+	name := fmt.Sprintf("kv%d-%d", si, w.seq)
+	variant := byte(w.r.Intn(250))
+	// the token must exist before the manifest line is rendered (a permission may name the contract itself)
+	probe := w.newKVX(name, variant, defaultManV(), w.net.Account(owner))
+	h := probe.Hash(w.net.Account(owner))
 	s.gen++
-	s.kv, s.hash, s.owner = kv, h, owner
-	s.deployed = true // optimistic; re-read from the chain after the block
 	w.toks[h] = fmt.Sprintf("c%dg%d", si, s.gen)
-	return &op{kind: "kv.deploy", tx: tx, model: true, line: fmt.Sprintf("tx %s c=- kv.deploy %s", sigList(fmt.Sprintf("k%d", owner)), w.tok(h))}
+	kv := w.newKVX(name, variant, mv, w.net.Account(owner))
+	tx := w.mkTx(kv.DeployScript([]byte{byte(w.seq)}), 0, w.net.Single(owner))
+	s.kv, s.hash, s.owner, s.mv = kv, h, owner, mv
+	s.deployed = true // optimistic; re-read from the chain after the block
+	return &op{kind: "kv.deploy", tx: tx, model: true, line: fmt.Sprintf("tx %s c=- kv.deploy %s %s", sigList(fmt.Sprintf("k%d", owner)), w.tok(h), w.manLine(mv))}
 }
 
 func (w *world) opInvoke(si int) *op {
@@ -484,15 +495,40 @@ func (w *world) opInvoke(si int) *op {
 	return &op{kind: "kv.invoke", tx: tx, line: fmt.Sprintf("tx %s c=- kv.invoke %s %s", sigList(fmt.Sprintf("k%d", p)), w.tok(s.hash), strings.Join(desc, "+"))}
 }
 
+// opUpdate: the contract updates itself through ContractManagement.update (its manifest must permit that call):
+// a new NEF with a new manifest variant, or NEF-only (manifest nil: the OLD manifest object of the cache is kept and
+// serialised again).
 func (w *world) opUpdate(si int) *op {
 	s := w.slots[si]
 	p := w.payer()
 	if p < 0 {
 		return nil
 	}
-	nkv := chainx.NewKV(s.kv.Name, byte(250+w.r.Intn(5)))
+	variant := byte(250 + w.r.Intn(5))
+	if w.r.Chance(1, 2) {
+		return w.opUpdateKeep(si)
+	}
+	mv := w.randManV(si)
+	mv.groups = nil // a group signs the contract hash, which the update does not change; keep the variant simple
+	nkv := w.newKVX(s.kv.Name, variant, mv, w.net.Account(s.owner))
 	tx := w.mkTx(chainx.Script(false, chainx.Call{Hash: s.hash, Method: "update", Args: []any{nkv.NEFBytes, nkv.ManBytes, []byte{0xee}}, Drop: true}), 0, w.net.Single(p))
-	return &op{kind: "kv.update", tx: tx, model: true, line: fmt.Sprintf("tx %s c=- kv.update %s", sigList(fmt.Sprintf("k%d", p)), w.tok(s.hash))}
+	return &op{kind: "kv.update", tx: tx, model: true, line: fmt.Sprintf("tx %s c=- kv.update %s %s", sigList(fmt.Sprintf("k%d", p)), w.tok(s.hash), w.manLine(mv))}
+}
+
+// opUpdateKeep: NEF-only update (manifest nil): ContractManagement keeps the OLD manifest object of its cache and
+// serialises it again.
+func (w *world) opUpdateKeep(si int) *op {
+	s := w.slots[si]
+	p := w.payer()
+	if p < 0 {
+		return nil
+	}
+	variant := byte(250 + w.r.Intn(5))
+	{
+		nkv := w.newKVX(s.kv.Name, variant, defaultManV(), w.net.Account(s.owner))
+		tx := w.mkTx(chainx.Script(false, chainx.Call{Hash: s.hash, Method: "update", Args: []any{nkv.NEFBytes, nil, []byte{0xee}}, Drop: true}), 0, w.net.Single(p))
+		return &op{kind: "kv.update", tx: tx, model: true, line: fmt.Sprintf("tx %s c=- kv.update %s keep", sigList(fmt.Sprintf("k%d", p)), w.tok(s.hash))}
+	}
 }
 
 func (w *world) opDestroy(si int) *op {
